@@ -86,10 +86,11 @@ func (w *world) viol(key, what string) {
 
 func main() {
 	r := ev.Start("C29", "exploration")
-	r.SetRule("seeded histories (quick 28 x 14 calls, thorough 320 x 14) of AcmeValidate / AcmeInstruction / ReleaseTunnel by three clients over hostnames {valid custom (plain, padded with spaces, IDN), below the apex, the apex itself, below / equal to the ACME zone, two-label bare domains, upper-case forms of the refused classes, public-suffix bare and apex-as-infix names (recorded only)} x CNAME answers {exactly the caller's target, another client's target, caller's target with an extra left label (suffix match), the managed target, resolver error, NXDOMAIN} x proofs {valid, none, wrong subject, expired, expiry far in the future, lower difficulty, unsolved counter, bad signature, signed by another key} x existing binding {none, same client, other client}. Distinct = (op, hostname class, cname answer, proof kind, binding relation, result); non-trivial = the proof is valid (the request gets past the proof check) or the hostname is bound")
+	r.SetRule("seeded histories (quick 28 x 14 calls, thorough 320 x 14) of AcmeValidate / AcmeInstruction / ReleaseTunnel by three clients over hostnames {valid custom (plain, padded with spaces, IDN), below the apex, the apex itself, below / equal to the ACME zone, two-label bare domains, upper- and mixed-case spellings of the refused classes and of the valid (possibly already bound) names, sent with a fresh valid proof over the spelling as sent and the right CNAME (case-insensitive resolver), public-suffix bare and apex-as-infix names (recorded only)} x CNAME answers {exactly the caller's target, another client's target, caller's target with an extra left label (suffix match), the managed target, resolver error, NXDOMAIN} x proofs {valid, none, wrong subject, expired, expiry far in the future, lower difficulty, unsolved counter, bad signature, signed by another key} x existing binding {none, same client, other client}. Distinct = (op, hostname class, cname answer, proof kind, binding relation, result); non-trivial = the proof is valid (the request gets past the proof check) or the hostname is bound")
 	r.Assume("a valid proof is acceptable for >= 9 s after its generation started; verdicts that need the proof to have been valid are only taken while it is younger than 4 s, otherwise the call is repeated with a new proof")
 	r.Assume("normalisation removes surrounding white space and maps IDN labels to punycode; the binding is stored under that form")
 	r.Assume("'bare domain' is judged only for two-label names; a public-suffix bare name (example.co.uk) and names that merely contain the apex as an infix are recorded, not judged")
+	r.Assume("whether a spelling with upper-case letters is accepted at all is not pinned (the pinned tree rejects it); if it is, it is the same hostname as its lower-case form: refused classes stay refused, and the DHT never holds two bindings whose keys differ only in case")
 	r.Assume("DESIGN: with a valid proof, an unbound valid hostname and exactly the right CNAME the validation must succeed (bound afterwards iff ...)")
 	rng := r.Rand("c29")
 	nWorlds := r.Pick(28, 320)
@@ -158,7 +159,17 @@ func (w *world) hosts(rng *rand.Rand, wi int) []hostCase {
 		{Raw: "  " + v1 + "\t", N: v1, Class: "valid"},
 		{Raw: idn, N: idn, Class: "valid"},
 		{Raw: uni, N: idn, Class: "valid"},
+		// upper / mixed-case spellings of the valid names: the same DNS name, so the
+		// same binding (keyed by the lower-case form) whatever the server makes of them
+		{Raw: strings.ToUpper(v1[:1]) + v1[1:], N: v1, Class: "casevariant"},
+		{Raw: strings.ToUpper(v1), N: v1, Class: "casevariant"},
+		{Raw: strings.Replace(v2, "example", "ExAmPlE", 1), N: v2, Class: "casevariant"},
 		{Raw: "foo." + tunlab.Apex, Class: "apex"},
+		{Raw: "tunnel." + mixCase(tunlab.Apex), Class: "apex"},
+		{Raw: "Foo." + strings.ToUpper(tunlab.Apex[:3]) + tunlab.Apex[3:], Class: "apex"},
+		{Raw: "x." + mixCase(tunlab.Acme), Class: "acme"},
+		{Raw: "x.ACME" + tunlab.Acme[4:], Class: "acme"},
+		{Raw: fmt.Sprintf("Bare%d.Net", wi), Class: "bare"},
 		{Raw: fmt.Sprintf("a%d.b.%s", rng.Intn(100), tunlab.Apex), Class: "apex"},
 		{Raw: tunlab.Apex, Class: "apex"},
 		{Raw: " foo." + tunlab.Apex + " ", Class: "apex"},
@@ -175,6 +186,17 @@ func (w *world) hosts(rng *rand.Rand, wi int) []hostCase {
 		{Raw: tunlab.Apex + fmt.Sprintf(".evil%d.example.net", wi), N: tunlab.Apex + fmt.Sprintf(".evil%d.example.net", wi), Class: "unjudged"},
 	}
 	return hs
+}
+
+// mixCase upper-cases every second letter.
+func mixCase(s string) string {
+	b := []byte(s)
+	for i := 0; i < len(b); i += 2 {
+		if b[i] >= 'a' && b[i] <= 'z' {
+			b[i] -= 32
+		}
+	}
+	return string(b)
 }
 
 type cnameKind int
@@ -261,7 +283,7 @@ func (w *world) run(rng *rand.Rand, wi, nOps int) map[string]int {
 	hs := w.hosts(rng, wi)
 	valid := []hostCase{}
 	for _, h := range hs {
-		if h.Class == "valid" {
+		if h.Class == "valid" || h.Class == "casevariant" {
 			valid = append(valid, h)
 		}
 	}
@@ -276,9 +298,14 @@ func (w *world) run(rng *rand.Rand, wi, nOps int) map[string]int {
 		} else {
 			h = hs[rng.Intn(len(hs))]
 		}
+		// the string the proof is made for and whose challenge record is scripted:
+		// the normalised name; for spellings with upper-case letters the spelling as
+		// sent (a server that accepts it at all would look at that string; the
+		// scripted resolver is case-insensitive like the DNS)
 		subject := h.N
-		if subject == "" {
-			subject = strings.ToLower(strings.TrimSpace(h.Raw)) // what a client would sign for
+		hasUpper := strings.ToLower(h.Raw) != h.Raw
+		if subject == "" || hasUpper {
+			subject = strings.TrimSpace(h.Raw)
 		}
 		boundTo, isBound := w.bound[h.N]
 		if h.N == "" {
@@ -331,6 +358,12 @@ func (w *world) run(rng *rand.Rand, wi, nOps int) map[string]int {
 		pk := proofKinds[0]
 		if rng.Intn(100) < 35 {
 			pk = proofKinds[1+rng.Intn(len(proofKinds)-1)]
+		}
+		if hasUpper && rng.Intn(100) < 75 {
+			// only the spelling stands between this request and a binding
+			pk = "valid"
+			ck = cRight
+			w.lab.Resolver.Set(name, tokenTarget(caller.Token))
 		}
 		rec := opRecord{Step: w.step, Op: op, Caller: caller.Name, Hostname: h.Raw, Class: h.Class, Cname: cnameNames[ck], Proof: pk}
 		if isBound {
@@ -392,6 +425,21 @@ func (w *world) run(rng *rand.Rand, wi, nOps int) map[string]int {
 		case h.Class == "apex" || h.Class == "acme" || h.Class == "bare":
 			if err == nil {
 				w.viol("refused-class-served/"+h.Class, fmt.Sprintf("%s of %q (%s domain) was served", op, h.Raw, h.Class))
+			}
+		case h.Class == "casevariant":
+			// whether an upper-case spelling is accepted at all is not pinned; if it
+			// is, it is the same hostname as its lower-case form
+			obs[fmt.Sprintf("%s of an upper/mixed-case spelling of a valid name, %s -> served=%v", op, rel, err == nil)]++
+			if op == "validate" && err == nil {
+				switch rel {
+				case "other":
+					w.viol("rebound-to-other-client", fmt.Sprintf("%q (= %q) is bound to %s; validation by %s succeeded", h.Raw, h.N, w.clients[boundTo].Name, caller.Name))
+				case "unbound":
+					if ck != cRight {
+						w.viol("bound-without-dns-proof/"+cnameNames[ck], fmt.Sprintf("%q became bound to %s although its challenge CNAME is %s", h.Raw, caller.Name, cnameNames[ck]))
+					}
+					w.bound[h.N] = ci
+				}
 			}
 		case h.Class == "unjudged":
 			kind := "public-suffix bare name (x.co.uk)"
@@ -458,22 +506,30 @@ func (w *world) compare() {
 		keys = append(keys, k)
 	}
 	sort.Strings(keys)
-	for _, k := range keys {
-		b := stored[k]
+	byLower := map[string]string{}
+	for _, rawKey := range keys {
+		b := stored[rawKey]
+		k := strings.ToLower(rawKey)
+		if prev, dup := byLower[k]; dup {
+			w.viol("case-variants-bound-separately", fmt.Sprintf("the DHT holds two bindings for one hostname: %q -> %v and %q -> %v", prev, stored[prev].GetClientIdentity().GetAddress(), rawKey, b.GetClientIdentity().GetAddress()))
+			w.stopped = true
+			continue
+		}
+		byLower[k] = rawKey
 		o, ok := w.bound[k]
 		if !ok {
-			w.viol("binding-appeared", fmt.Sprintf("the DHT binds %q to %v, no successful validation explains it", k, b.GetClientIdentity()))
+			w.viol("binding-appeared", fmt.Sprintf("the DHT binds %q to %v, no successful validation explains it", rawKey, b.GetClientIdentity()))
 			w.stopped = true
 			continue
 		}
 		c := w.clients[o]
 		if !bytes.Equal(b.GetClientToken().GetToken(), c.Token) || b.GetClientIdentity().GetId() != c.Node.GetId() || b.GetClientIdentity().GetAddress() != c.Node.GetAddress() {
-			w.viol("binding-names-other-client", fmt.Sprintf("%q is bound to %v in the DHT, the model says %s", k, b.GetClientIdentity(), c.Name))
+			w.viol("binding-names-other-client", fmt.Sprintf("%q is bound to %v in the DHT, the model says %s", rawKey, b.GetClientIdentity(), c.Name))
 			w.stopped = true
 		}
 	}
 	for k, o := range w.bound {
-		if _, ok := stored[k]; !ok {
+		if _, ok := byLower[k]; !ok {
 			w.viol("binding-lost", fmt.Sprintf("binding of %q to %s disappeared", k, w.clients[o].Name))
 			delete(w.bound, k)
 		}
